@@ -49,7 +49,7 @@ def run(ctx):
     maxdepth_seen, maxtotal_seen = 0, Fraction(0)
     try:
         # (a) single taxon costs, fresh assessor, both strategies
-        n = 1500 if ctx.tier == "quick" else 30000
+        n = 1500 if ctx.tier == "quick" else 200000
         for i in range(n):
             strat = rng.choice(["zeno", "linear"])
             taxa = [gen_taxon(rng, 40 if i % 10 == 0 else 8) for _ in range(rng.randint(1, 6))]
@@ -70,7 +70,7 @@ def run(ctx):
                                "model(=spec, by C07_taxon)": model[j]},
                 })
         # (b) histories on one assessor (and a second, interleaved one: the cache is class-level)
-        m = 300 if ctx.tier == "quick" else 6000
+        m = 300 if ctx.tier == "quick" else 50000
         for i in range(m):
             strat = rng.choice(["zeno", "linear"])
             pool = [gen_taxon(rng, 6) for _ in range(6)]
@@ -141,7 +141,7 @@ def run(ctx):
         from paroxython.recommend_programs import Recommendations
         import copy
 
-        k = 300 if ctx.tier == "quick" else 5000
+        k = 300 if ctx.tier == "quick" else 40000
         for i in range(k):
             db = filt.gen_db(rng)
             strat = rng.choice(["zeno", "linear"])
@@ -170,7 +170,7 @@ def run(ctx):
                                "impl": got, "model(=spec)": expected},
                 })
         # (d) whole pipelines: ranking vs model (sorted by (cost, path), exact fractions)
-        q = 250 if ctx.tier == "quick" else 5000
+        q = 250 if ctx.tier == "quick" else 40000
         for i in range(q):
             db = filt.gen_db(rng)
             strat = rng.choice(["zeno", "linear"])
